@@ -142,6 +142,36 @@ mut("c13_no_rotation_on_count", "src/storage/observer_worker.rs", """           
                 {
                     return Ok(false);""", ["C13"], "worker ignores the record limit")
 mut("c13_shutdown_keeps_sender", "src/storage/observer.rs", "            std::mem::drop(sender); // Drop sender. That trigger ObserverWorker stopping", "            let _keep = sender.clone(); std::mem::drop(sender);", ["C13"], "close() never returns: a sender clone keeps the worker alive")
+# ---- C14
+mut("c14_fetch_add_hoisted", "src/io/unix/sync.rs", """            Self::background_sync_call(move || {
+                let offset = file_inner.size.fetch_add(len, Ordering::SeqCst);
+                let (res, data) = c.create(offset);""", """            let offset = file_inner.size.fetch_add(len, Ordering::SeqCst);
+            tokio::task::yield_now().await;
+            Self::background_sync_call(move || {
+                let (res, data) = c.create(offset);""", ["C14"], "offset reserved before the await (the bug from the changelog): a cancelled write leaves a hole")
+mut("c14_await_between_write_and_push", "src/blob/core.rs", """        header.set_offset_checksum(write_result.blob_offset(), write_result.header_checksum());
+        blob.index.push(key, header)?;
+        Ok(WriteResult { dirty_bytes: blob.file.dirty_bytes() })""", """        header.set_offset_checksum(write_result.blob_offset(), write_result.header_checksum());
+        tokio::task::yield_now().await;
+        blob.index.push(key, header)?;
+        Ok(WriteResult { dirty_bytes: blob.file.dirty_bytes() })""", ["C14"], "extra suspension point between file write and index push (allowed: record un-indexed until restart)")
+mut("c14_close_takes_blob_first", "src/storage/core.rs", """            if let Some(ablob) = safe.active_blob.as_ref() {
+                ablob.read().await.fsyncdata().await?;
+            }
+            let blobs = safe.blobs.clone();
+            let mut blobs = blobs.write().await;
+            // always true
+            if let Some(ablob) = safe.active_blob.take() {
+                blobs.push((*ablob).into_inner()).await;
+            }""", """            let blobs = safe.blobs.clone();
+            if let Some(ablob) = safe.active_blob.take() {
+                let ablob = (*ablob).into_inner();
+                ablob.fsyncdata().await?;
+                blobs.write().await.push(ablob).await;
+            }""", ["C14", "C11"], "reverts fix: blob held by a local across the fsync await")
+mut("c14_create_in_caller", "src/storage/core.rs", """            let blob = tokio::spawn(async move { Blob::open_new(next, iodriver, config).await })
+                .await
+                .map_err(|e| anyhow!("BLOB creation task failed: {}", e))??;""", "            let blob = Blob::open_new(next, iodriver, config).await?;", ["C14"], "reverts fix F10: blob creation cancellable")
 # ---- C15
 mut("c15_count_from_keys", "src/blob/index/bptree/serializer.rs", "            let headers_len = self\n                .headers_btree\n                .iter()\n                .fold(0, |acc, (_k, v)| acc + v.len());", "            let headers_len = self\n                .headers_btree\n                .iter()\n                .fold(0, |acc, (_k, v)| acc + v.len().min(1));", ["C15", "C09"], "on-disk records_count from keys")
 mut("c15_disk_used_no_active", "src/storage/core.rs", "            result += ablob.read().await.disk_used();", "            result += 0 * ablob.read().await.disk_used();", ["C15"])
